@@ -1082,7 +1082,7 @@ class AbsInt:
         if k == "bin":
             a = self.eval_operand(frame, rv["a"], mem, fn)
             b = self.eval_operand(frame, rv["b"], mem, fn)
-            return self.binop(rv["op"], a, b, rv.get("oty"), rv["a"], rv["b"], frame)
+            return self.binop(rv["op"], a, b, rv.get("oty"), rv["a"], rv["b"], frame, mem)
         if k == "un":
             a = self.eval_operand(frame, rv["a"], mem, fn)
             op = rv["op"]
@@ -1156,7 +1156,7 @@ class AbsInt:
             return Num(ty, float(a.lo) if exact else _down(float(a.lo)), float(a.hi) if exact else _up(float(a.hi)), False, a.sym if exact else None)
         return top_of(ty)
 
-    def binop(self, op, a, b, oty, oa=None, ob=None, frame=None):
+    def binop(self, op, a, b, oty, oa=None, ob=None, frame=None, mem=None):
         op = {"AddUnchecked": "Add", "SubUnchecked": "Sub", "MulUnchecked": "Mul", "ShlUnchecked": "Shl",
               "ShrUnchecked": "Shr"}.get(op, op)
         if op in ("Eq", "Ne", "Lt", "Le", "Gt", "Ge"):
@@ -1185,6 +1185,14 @@ class AbsInt:
         if isinstance(a, Num) and isinstance(b, Num) and (is_int(oty or a.ty) or is_float(oty or a.ty)):
             ty = a.ty if op in ("Shl", "Shr") else (oty or a.ty)
             n, _ovf = num_bin(op, a, b, ty, False)
+            if _ovf and mem is not None and op == "Add" and is_int(ty) and a.lo >= 0 and b.lo >= 0:
+                # builds without overflow checks: an unchecked `i + k` still cannot wrap when the path's linear facts bound
+                # the operands (i <= len <= isize::MAX); then the sum keeps its relation to the length
+                ua, ub = self.upper(a, mem), self.upper(b, mem)
+                if ua < a.hi or ub < b.hi:
+                    n2, ovf2 = num_bin(op, a.copy(hi=ua), b.copy(hi=ub), ty, False)
+                    if not ovf2:
+                        n, _ovf = n2, False
             if not _ovf:
                 n.sym = sym_bin(op, a, b, ty, self.symenv)
                 n.lin = lin_bin(op, a, b)
